@@ -33,10 +33,10 @@ def RL.parseChar (cfg : Cfg) (s : RL) (c : Byte) : RL × Bool :=
   | .uri =>
     if isEol c then (s, false)
     else if isBlank c then
-      let s := { s with ws := s.ws + 1 }
-      if s.ws > cfg.maxWs then ({ s with st := .errWs }, false)
-      else if !s.uri.isEmpty then ({ s with ws := 1, st := .httpH }, true)
-      else (s, true)
+      if !s.uri.isEmpty then ({ s with ws := 1, st := .httpH }, true)
+      else
+        let s := { s with ws := s.ws + 1 }
+        if s.ws > cfg.maxWs then ({ s with st := .errWs }, false) else (s, true)
     else
       let s := { s with uri := s.uri ++ [c] }
       if s.uri.length > cfg.maxUri then ({ s with st := .errUriLength }, false) else (s, true)
